@@ -88,6 +88,22 @@ pub fn main(args: &crate::Args) {
             todo.push((prog.calls, format!("gen:{seed}:{i}")));
         }
     }
+    // the same programs for the Lean driver: it evaluates the decidable hypotheses of
+    // `P3R.C18.compile_order_independent` (`c18inv`) on each of them (bin/checks_c18.py reads the answers)
+    if args.u64("cases", 0) == 1 {
+        let mut cf = std::io::BufWriter::new(std::fs::File::create(format!("{out}/determinism.{tag}.cases")).unwrap());
+        for (calls, id) in &todo {
+            writeln!(cf, "# {id}").unwrap();
+            writeln!(cf, "prog bb").unwrap();
+            for c in calls {
+                writeln!(cf, "{}", c.line()).unwrap();
+            }
+            writeln!(cf, "c18inv").unwrap();
+        }
+        cf.flush().unwrap();
+        let ids: Vec<Value> = todo.iter().map(|(calls, id)| json!({"id": id, "program": calls.iter().map(|c| c.line()).collect::<Vec<_>>()})).collect();
+        std::fs::write(format!("{out}/determinism.{tag}.programs.json"), serde_json::to_string(&ids).unwrap()).unwrap();
+    }
     let mut evals = 0usize;
     for (n, (calls, id)) in todo.iter().enumerate() {
         let with_commit = n % commit_every == 0;
